@@ -14,11 +14,11 @@ open Ioc Ioc.Tag Ioc.Match
 
 deriving instance DecidableEq for Ioc.Match.Prov
 
-def pA : Prov := ⟨0, ofString "pkg/A", 1, 0b01, false, false, none, [⟨"Get", 0, 1, ofString "x"⟩]⟩
-def pB : Prov := ⟨1, ofString "b", 2, 0b11, true, false, some (ofString "q1"), [⟨"Get", 0, 1, ofString "y"⟩, ⟨"Run", 0, 0, []⟩]⟩
-def pC : Prov := ⟨2, ofString "c", 2, 0b01, true, true, some (ofString "q2"), [⟨"Get", 1, 1, ofString "x"⟩]⟩
-def pD : Prov := ⟨3, ofString "pkg/D", 3, 0b10, false, false, some (ofString "q1"), []⟩
-def pH : Prov := ⟨4, ofString "pkg/H", 4, 0b01, false, false, none, []⟩
+def pA : Prov := ⟨0, ofString "pkg/A", 1, 0b01, false, false, none, [⟨"Get", 0, 1, ofString "x"⟩], none⟩
+def pB : Prov := ⟨1, ofString "b", 2, 0b11, true, false, some (ofString "q1"), [⟨"Get", 0, 1, ofString "y"⟩, ⟨"Run", 0, 0, []⟩], none⟩
+def pC : Prov := ⟨2, ofString "c", 2, 0b01, true, true, some (ofString "q2"), [⟨"Get", 1, 1, ofString "x"⟩], none⟩
+def pD : Prov := ⟨3, ofString "pkg/D", 3, 0b10, false, false, some (ofString "q1"), [], none⟩
+def pH : Prov := ⟨4, ofString "pkg/H", 4, 0b01, false, false, none, [], none⟩
 
 def pop : List Prov := [pA, pB, pC, pD, pH]
 /-- the same components enumerated in another order -/
